@@ -24,6 +24,34 @@ def run(F, X, rep):
     s_sources(F, X, rep)
     l_poll_loop(F, X, rep)
     h_subscription(F, X, rep)
+    c_one_cell(F, X, rep)
+
+
+def c_one_cell(F, X, rep, rid="C20-C"):
+    rep.rule(rid, "there is ONE height cell: the Arc<Mutex<u32>> is created at one site and the field holding it is never re-assigned - the poll task, the notification handler and the reader all share it (a second cell splits the sources: the poll would raise a cell nobody reads)")
+    news = []
+    for b in F.code_bodies():
+        if "src/block_watcher.rs" not in b.span.get("f", ""):
+            continue
+        for c in b.calls:
+            if c.name == "tokio::sync::Mutex::new" and "Mutex<u32>" in c.full.replace(" ", "") or (c.name in ("tokio::sync::Mutex::new", "std::sync::Mutex::new") and c.t.get("rty", "").replace(" ", "").endswith("Mutex<u32>")):
+                news.append(c)
+    sites = sorted({c.loc for c in news})
+    rep.anchor(rid, "constructions of the Mutex<u32> height cell", len(sites), 1)
+    rep.ob(rid, len(sites) == 1, "block_watcher", "the height cell is created once", where=sites[1] if len(sites) > 1 else (sites[0] if sites else ""), how="%d site(s)" % len(sites),
+           detail="" if len(sites) == 1 else "%d height cells are created: the sources (startup query, poll, notifications) and the reader may not share one" % len(sites))
+    # the struct field holding the cell
+    n = 0
+    for name, adt in F.adts.items():
+        if not adt.get("variants") or "block_watcher" not in name:
+            continue
+        for f in adt["variants"][0]["fields"]:
+            if re.search(r"Arc<tokio::sync::Mutex<u32>>|Arc<std::sync::Mutex<u32>>", f["ty"]):
+                n += 1
+                writes, borrows = HHm.field_writes(F, canon(name), f["n"])
+                rep.ob(rid, not writes and not borrows, name, "field %s is never re-assigned" % f["n"], where=loc(writes[0][2]["sp"]) if writes else (loc(borrows[0][2]["sp"]) if borrows else ""), how="no write / &mut borrow of the field",
+                       detail="" if not (writes or borrows) else "the field holding the height cell is replaced at %s: clones taken earlier (the poll task's) keep the old cell" % (loc((writes or borrows)[0][2]["sp"])))
+    rep.anchor(rid, "struct field holding the height cell", n, 1)
 
 
 def cell_writes(F, X):
@@ -44,8 +72,7 @@ def cell_writes(F, X):
     return out, regions
 
 
-def w_single_guarded_writer(F, X, rep):
-    rid = "C20-W"
+def w_single_guarded_writer(F, X, rep, rid="C20-W"):
     rep.rule(rid, "single write site of the height cell, behind `new > current`, writing `new`, compare+write in one guard region without await")
     writes, regions = cell_writes(F, X)
     rep.anchor(rid, "guard regions of the Mutex<u32> height cell", len(regions), 2)
